@@ -89,7 +89,7 @@ def dedup (l : List St) : List St := l.foldl (fun acc s => if acc.contains s the
 
 /-- finish the op: close under internal steps, compare with the observation, print -/
 def conclude (d : DS) (after : List St) (obs : String) : IO DS := do
-  match closure d.g d.pk (dedup after) {} [] 30000 with
+  match closure d.g d.pk (dedup after) {} [] 120000 with
   | none => IO.println "MODEL closure-overflow"; pure { d with lost := true }
   | some st =>
     let ok := st.filter (fun s => obsOf s == obs)
@@ -147,7 +147,7 @@ partial def loop (h : IO.FS.Stream) (d : DS) : IO Unit := do
           match ts with
           | [] => some bel
           | t :: r =>
-            match closure d.g d.pk (dedup (bel.filterMap fun s => (step d.g s (.go t)).map norm)) {} [] 30000 with
+            match closure d.g d.pk (dedup (bel.filterMap fun s => (step d.g s (.go t)).map norm)) {} [] 120000 with
             | some st => go r st
             | none => none
         match go ts d.belief with
